@@ -102,6 +102,9 @@ inductive Stmt where
   | ifElse (c : Cond) (t e : Stmt)
   | loop (c : Option Cond) (body : Stmt)
   | decl (x : Nat)      -- `var x uintW` inside an `if` / `for` body (a memory variable; x = its unique index)
+  | brk                 -- `break`
+  | cont                -- `continue`
+  | loopP (c : Cond) (body post : Stmt)   -- `for [init]; c; post { body }` (init is written before the loop)
 deriving Repr, Inhabited
 
 /-- a program: the kinds of the declared variables in declaration order (`true` = `reg_` variable
@@ -170,6 +173,14 @@ def blockLocs : Stmt → List Nat → List Loc × List Nat × List Nat
   | .loop _ b, mems =>
     let (lb, m1, _) := blockLocs b mems
     (lb, m1, [])
+  | .brk, mems => ([], mems, [])
+  | .cont, mems => ([], mems, [])
+  | .loopP _ b p, mems =>
+    -- a post clause makes the real compiler visit the loop's visitor again: the body's variables
+    -- are released before the post clause is compiled
+    let (lb, m1, tb) := blockLocs b mems
+    let (lp, m2, _) := blockLocs p (tb.foldl List.erase m1)
+    (lb ++ lp, m2, [])
 
 /-- memory cells of the top-level declarations -/
 def memCells (ls : List Loc) : List Nat :=
@@ -295,6 +306,10 @@ def compileS (ls : List Loc) : Stmt → Nat → List Nat → Option (List Instr 
       | none => none
       | some (cb, busy2) =>
         some (cc ++ [.jz rc (base + cc.length + 1 + cb.length + 1)] ++ cb ++ [.j base], busy2)
+  -- `break`, `continue` and three-clause loops need the loop labels: see `compileX`
+  | .brk, _, _ => none
+  | .cont, _, _ => none
+  | .loopP _ _ _, _, _ => none
 
 /-- the whole program: declarations, then the body of `main` -/
 def compile (p : Prog) : Option (List Instr) :=
@@ -412,6 +427,9 @@ def exec (env : Nat → Nat → Nat) (w : Nat) : Nat → Stmt → Src → Src ×
     let (v, s1) := evalE env w e s
     ({ s1 with vars := upd s1.vars x v }, true)
   | _, .decl x, s => ({ s with vars := upd s.vars x 0 }, true)     -- Go zero-initialises at every execution
+  | _, .brk, s => (s, true)          -- not meaningful without loop labels: see `execX`
+  | _, .cont, s => (s, true)
+  | _, .loopP _ _ _, s => (s, true)
   | _, .inc x, s => ({ s with vars := upd s.vars x ((s.vars x + 1) % 2 ^ w) }, true)
   | _, .dec x, s => ({ s with vars := upd s.vars x ((s.vars x + (2 ^ w - 1)) % 2 ^ w) }, true)
   | _, .iowrite o e, s =>
@@ -438,6 +456,195 @@ def exec (env : Nat → Nat → Nat) (w : Nat) : Nat → Stmt → Src → Src ×
       | (s2, true) => exec env w fuel (.loop (some c) body) s2
       | (s2, false) => (s2, false)
 termination_by fuel st _ => (fuel, sizeOf st)
+
+/-! ## `break`, `continue`, three-clause `for`: the extended compiler and semantics
+
+  `compileX` is `compileS` with the addresses of the innermost loop's exit (`lb`: where `break`
+  jumps — the real compiler's `<<…ENDFOR>>`) and continue point (`lc`: `<<…CONTINUEFOR>>`, the first
+  instruction after the body, i.e. the post clause or the back jump).  `execX` is `exec` with a
+  completion status.  On statements without `break` / `continue` / post clause the two pairs agree
+  (`compileX_plain`, `execX_plain` in BMV/Proofs/Bondgo.lean). -/
+
+/-- how a statement ended -/
+inductive Status where
+  | ok        -- fell through
+  | brk       -- `break` reached: leave the innermost loop
+  | cont      -- `continue` reached: go to the continue point of the innermost loop
+  | timeout   -- loop fuel exhausted
+deriving DecidableEq, Repr, Inhabited
+
+/-- number of instructions an expression compiles to -/
+def exprLen : Expr → Nat
+  | .lit _ => 1
+  | .var _ => 1
+  | .ioread _ => 1
+  | .add a b => exprLen a + exprLen b + 1
+  | .mul a b => exprLen a + exprLen b + 1
+
+def condLen : Cond → Nat
+  | .eq a b => exprLen a + exprLen b + 4
+
+/-- Number of instructions a statement compiles to.  It depends on the statement and on where its
+    variables live, not on the allocator state or on any address: the real compiler learns the loop
+    labels after the fact (`Replacer`), the model computes them beforehand from this count
+    (`compileX_length`: it is the length of the code). -/
+def codeLen (ls : List Loc) : Stmt → Nat
+  | .skip => 0
+  | .seq a b => codeLen ls a + codeLen ls b
+  | .assign _ e => exprLen e + 1
+  | .inc x => match ls[x]? with | some (.mem _) => 3 | _ => 1
+  | .dec x => match ls[x]? with | some (.mem _) => 3 | _ => 1
+  | .iowrite _ e => exprLen e + 1
+  | .decl _ => 2
+  | .brk => 1
+  | .cont => 1
+  | .ifThen c t => condLen c + 1 + codeLen ls t
+  | .ifElse c t e => condLen c + 1 + codeLen ls t + 1 + codeLen ls e
+  | .loop none b => codeLen ls b + 1
+  | .loop (some c) b => condLen c + 1 + codeLen ls b + 1
+  | .loopP c b p => condLen c + 1 + codeLen ls b + codeLen ls p + 1
+
+def compileX (ls : List Loc) (lb lc : Nat) : Stmt → Nat → List Nat → Option (List Instr × List Nat)
+  | .skip, _, busy => some ([], busy)
+  | .seq s rest, base, busy =>
+    match compileX ls lb lc s base busy with
+    | none => none
+    | some (c1, busy1) =>
+      match compileX ls lb lc rest (base + c1.length) busy1 with
+      | none => none
+      | some (c2, busy2) => some (c1 ++ c2, busy2)
+  | .assign x e, base, busy => compileS ls (.assign x e) base busy
+  | .inc x, base, busy => compileS ls (.inc x) base busy
+  | .dec x, base, busy => compileS ls (.dec x) base busy
+  | .iowrite o e, base, busy => compileS ls (.iowrite o e) base busy
+  | .decl x, base, busy => compileS ls (.decl x) base busy
+  | .brk, _, busy => some ([.j lb], busy)
+  | .cont, _, busy => some ([.j lc], busy)
+  | .ifThen c t, base, busy =>
+    match compileC ls base c busy with
+    | none => none
+    | some (cc, rc, busy1) =>
+      match compileX ls lb lc t (base + cc.length + 1) (busy1.erase rc) with
+      | none => none
+      | some (ct, busy2) =>
+        some (cc ++ [.jz rc (base + cc.length + 1 + ct.length)] ++ ct, busy2)
+  | .ifElse c t e, base, busy =>
+    match compileC ls base c busy with
+    | none => none
+    | some (cc, rc, busy1) =>
+      match compileX ls lb lc t (base + cc.length + 1) (busy1.erase rc) with
+      | none => none
+      | some (ct, busy2) =>
+        match compileX ls lb lc e (base + cc.length + 1 + ct.length + 1) busy2 with
+        | none => none
+        | some (ce, busy3) =>
+          some (cc ++ [.jz rc (base + cc.length + 1 + ct.length + 1)] ++ ct
+                  ++ [.j (base + cc.length + 1 + ct.length + 1 + ce.length)] ++ ce, busy3)
+  | .loop none body, base, busy =>
+    -- `break` leaves to the instruction after the back jump, `continue` goes to the back jump
+    match compileX ls (base + codeLen ls body + 1) (base + codeLen ls body) body base busy with
+    | none => none
+    | some (cb, busy1) => some (cb ++ [.j base], busy1)
+  | .loop (some c) body, base, busy =>
+    match compileC ls base c busy with
+    | none => none
+    | some (cc, rc, busy1) =>
+      match compileX ls (base + cc.length + 1 + codeLen ls body + 1) (base + cc.length + 1 + codeLen ls body)
+          body (base + cc.length + 1) (busy1.erase rc) with
+      | none => none
+      | some (cb, busy2) =>
+        some (cc ++ [.jz rc (base + cc.length + 1 + cb.length + 1)] ++ cb ++ [.j base], busy2)
+  | .loopP c body post, base, busy =>
+    match compileC ls base c busy with
+    | none => none
+    | some (cc, rc, busy1) =>
+      -- `continue` goes to the post clause, `break` behind the back jump
+      match compileX ls (base + cc.length + 1 + codeLen ls body + codeLen ls post + 1)
+          (base + cc.length + 1 + codeLen ls body) body (base + cc.length + 1) (busy1.erase rc) with
+      | none => none
+      | some (cb, busy2) =>
+        -- the post clause is outside the body: it is compiled with the labels of the enclosing loop
+        match compileX ls lb lc post (base + cc.length + 1 + cb.length) busy2 with
+        | none => none
+        | some (cp, busy3) =>
+          some (cc ++ [.jz rc (base + cc.length + 1 + cb.length + cp.length + 1)] ++ cb ++ cp ++ [.j base], busy3)
+
+/-- the whole program with `break` / `continue` / post clauses -/
+def compileXP (p : Prog) : Option (List Instr) :=
+  let ls := allLocs p
+  let pre := preamble p.decls
+  match compileX ls 0 0 p.body pre.length (varRegs (locs p.decls)) with
+  | some (c, _) => some (pre ++ c)
+  | none => none
+
+def execX (env : Nat → Nat → Nat) (w : Nat) : Nat → Stmt → Src → Src × Status
+  | _, .skip, s => (s, .ok)
+  | fuel, .seq a b, s =>
+    match execX env w fuel a s with
+    | (s1, .ok) => execX env w fuel b s1
+    | r => r
+  | _, .assign x e, s =>
+    let (v, s1) := evalE env w e s
+    ({ s1 with vars := upd s1.vars x v }, .ok)
+  | _, .decl x, s => ({ s with vars := upd s.vars x 0 }, .ok)
+  | _, .inc x, s => ({ s with vars := upd s.vars x ((s.vars x + 1) % 2 ^ w) }, .ok)
+  | _, .dec x, s => ({ s with vars := upd s.vars x ((s.vars x + (2 ^ w - 1)) % 2 ^ w) }, .ok)
+  | _, .iowrite o e, s =>
+    let (v, s1) := evalE env w e s
+    ({ s1 with outs := (o, v) :: s1.outs }, .ok)
+  | _, .brk, s => (s, .brk)
+  | _, .cont, s => (s, .cont)
+  | fuel, .ifThen c t, s =>
+    match evalC env w c s with
+    | (true, s1) => execX env w fuel t s1
+    | (false, s1) => (s1, .ok)
+  | fuel, .ifElse c t e, s =>
+    match evalC env w c s with
+    | (true, s1) => execX env w fuel t s1
+    | (false, s1) => execX env w fuel e s1
+  | 0, .loop _ _, s => (s, .timeout)
+  | 0, .loopP _ _ _, s => (s, .timeout)
+  | fuel + 1, .loop none body, s =>
+    match execX env w fuel body s with
+    | (s1, .ok) => execX env w fuel (.loop none body) s1
+    | (s1, .cont) => execX env w fuel (.loop none body) s1
+    | (s1, .brk) => (s1, .ok)
+    | (s1, .timeout) => (s1, .timeout)
+  | fuel + 1, .loop (some c) body, s =>
+    match evalC env w c s with
+    | (false, s1) => (s1, .ok)
+    | (true, s1) =>
+      match execX env w fuel body s1 with
+      | (s2, .ok) => execX env w fuel (.loop (some c) body) s2
+      | (s2, .cont) => execX env w fuel (.loop (some c) body) s2
+      | (s2, .brk) => (s2, .ok)
+      | (s2, .timeout) => (s2, .timeout)
+  | fuel + 1, .loopP c body post, s =>
+    match evalC env w c s with
+    | (false, s1) => (s1, .ok)
+    | (true, s1) =>
+      match execX env w fuel body s1 with
+      | (s2, .brk) => (s2, .ok)
+      | (s2, .timeout) => (s2, .timeout)
+      | (s2, _) =>          -- fell through or `continue`: the post clause runs, then the test again
+        match execX env w fuel post s2 with
+        | (s3, .ok) => execX env w fuel (.loopP c body post) s3
+        | r => r
+termination_by fuel st _ => (fuel, sizeOf st)
+
+/-- `goEval` with `break` / `continue` / post clauses -/
+def goEvalX (env : Nat → Nat → Nat) (w : Nat) (fuel : Nat) (p : Prog) : List (Nat × Nat) × Bool :=
+  let r := execX env w fuel p.body {}
+  (r.1.outs.reverse, decide (r.2 = .ok))
+
+/-- no `break`, `continue` or post clause anywhere: the fragment `compile` / `exec` cover -/
+def plain : Stmt → Bool
+  | .seq a b => plain a && plain b
+  | .ifThen _ t => plain t
+  | .ifElse _ t e => plain t && plain e
+  | .loop _ b => plain b
+  | .brk | .cont | .loopP _ _ _ => false
+  | _ => true
 
 /-- `goEval`: outputs (oldest first) of `main` within `fuel`, and whether `main` returned -/
 def goEval (env : Nat → Nat → Nat) (w : Nat) (fuel : Nat) (p : Prog) : List (Nat × Nat) × Bool :=
